@@ -41,20 +41,29 @@ def _protocol(case: dict):  # noqa: ANN202
     return make_protocol([(float(d), {k: float(v) for k, v in pv.items()}) for d, pv in case["protocol"]])
 
 
-def run_scan(case: dict, model, sched: dict, cache_dir=None, rows=None):  # noqa: ANN001, ANN201
+def run_scan(case: dict, model, sched: dict, cache_dir=None, rows=None, kept: dict | None = None):  # noqa: ANN001, ANN201
     """Run the scan under one schedule; returns the scan result object.
-    cache_dir: use a result cache there; rows: restrict the table to these row positions."""
+    cache_dir: use a result cache there; rows: restrict the table to these row positions;
+    kept: the simulated caller's own argument objects (table, grid, y0, protocol), created once
+    and passed again to every schedule - whatever the library scribbles on them comes back."""
     from mxlpy import mc, scan
     from mxlpy.parallel import Cache
 
     kind = case["kind"]
-    tab = _table(case)
-    if rows is not None:
-        tab = tab.iloc[list(rows)]
+    if kept is not None and rows is None:
+        if "tab" not in kept:
+            kept["tab"] = _table(case)
+            kept["y0"] = dict(case["y0"]) if case.get("y0") else None
+            kept["tp"] = np.array(case.get("time_points", [0.0, 1.0]), dtype=float)
+        tab, y0, tp = kept["tab"], kept["y0"], kept["tp"]
+    else:
+        tab = _table(case)
+        if rows is not None:
+            tab = tab.iloc[list(rows)]
+        y0 = dict(case["y0"]) if case.get("y0") else None
+        tp = np.array(case.get("time_points", [0.0, 1.0]), dtype=float)
     ck = {"cache": Cache(tmp_dir=cache_dir)} if cache_dir is not None else {}
     integ = _integrator(case)
-    y0 = dict(case["y0"]) if case.get("y0") else None
-    tp = np.array(case.get("time_points", [0.0, 1.0]), dtype=float)
     par = sched["mode"] == "pool"
     if kind.startswith("mc.") and not par:
         raise HarnessError("mc.* has no sequential mode")
@@ -136,6 +145,7 @@ class Exec:
         self.vt = 0.0
         self.i = 0
         self._oracle: dict = {}
+        self.kept: dict = {}  # the simulated caller's argument objects, re-used by every schedule
 
     def _viol(self, check: str, sig: list[str], detail: str) -> None:
         self.violations.append(violation(self.prop, check, sig, self.i, detail))
@@ -200,7 +210,7 @@ class Exec:
             except Exception:  # noqa: BLE001
                 cache_dir = None
         try:
-            res = run_scan(case, model, sched, cache_dir=cache_dir)
+            res = run_scan(case, model, sched, cache_dir=cache_dir, kept=self.kept)
         except HarnessError:
             raise
         except Exception as e:  # noqa: BLE001
